@@ -17,3 +17,5 @@ open RV.C11
 #print axioms prefix_falsy_end_ignored
 #print axioms prefix_seq_bw_loses_absent_end
 #print axioms prefix_aggregate_duplicates
+#print axioms neg_affected_iff
+#print axioms neg_affected_answer
